@@ -1,6 +1,14 @@
 import CGV.Props.C04
+import CGV.Props.C04Tree
 #print axioms CGV.C04.C04_read_chain
 #print axioms CGV.C04.matches_chain
 #print axioms CGV.C04.fold_tail
 #print axioms CGV.stepNode_plain
 #print axioms CGV.C04.renderChain_supported
+#print axioms CGV.C04.C04_read_tree
+#print axioms CGV.C04.matches_tree
+#print axioms CGV.C04.fold_tree
+#print axioms CGV.C04.popK_spec
+#print axioms CGV.C04.treeGraph_ofChain
+#print axioms CGV.stepNode_tree
+#print axioms CGV.closeLoop_pops
